@@ -214,6 +214,18 @@ theorem fields_noninterference (H : List Nat → Nat) (st st' : Store) :
    fun fid kb sz r hr h => mapGet_frame H st st' fid kb sz r hr h,
    fun fid hf hd => sliceRead_frame H st st' fid hf hd⟩
 
+/-- Whole histories on ONE vector field (any mix of push/pop/get/set/len/remove/insert/swap/
+swap_remove/clear and raw slot reads, any length, out-of-bounds calls included): the observations of
+the slot machine `runSlot` — the model the driver runs against the VM — satisfy the driver's
+predicate `histProp`, i.e. are exactly what the list model predicts. `N` bounds the number of
+elements ever in play (`VecSep` up to `N` elements, `N < 2^64`). `_partial`: one field only; the
+composition over several fields is checked per run. -/
+theorem C28_vec_history_partial (H : List Nat → Nat) (fid w N : Nat) (hw : 0 < w) (hN : N < 2 ^ 64)
+    (hsep : VecSep H fid (N * w)) (ops : List Op) (hops : ∀ op ∈ ops, vecOp w op = true)
+    (hb : ops.length + 1 ≤ N) :
+    histProp (absInit [⟨.vec (8 * w), fid⟩]) ops (runSlot H [⟨.vec (8 * w), fid⟩] Store.empty ops) = true :=
+  vec_history H fid w N hw hN hsep ops Store.empty [] hops (storage_vec_init H fid w _) (by simpa using hb)
+
 /-! Non-vacuity: the hypotheses are satisfiable together (a concrete `H`, the deployed store). -/
 def H0 : List Nat → Nat := fun _ => 1000
 example : VecSep H0 5 ((([] : List (List Nat)).length + 1) * 1) := by
@@ -221,6 +233,7 @@ example : VecSep H0 5 ((([] : List (List Nat)).length + 1) * 1) := by
 example : VecRep H0 Store.empty 5 1 false [] := storage_vec_init H0 5 1 false
 example : ([] : List (List Nat)).length + 1 < 2 ^ 64 := by decide
 example : SlotsApart 10 2 20 1 := Or.inl (by omega)
+example : ∀ op ∈ [Op.vpush 0 [0, 0, 0, 0, 0, 0, 0, 7], Op.vremove 0 0, Op.vget 0 0], vecOp 1 op = true := by decide
 example : SliceSep H0 5 64 := by intro j _; show 1000 + j ≠ 5; omega
 
 end SwayVerif.C28
